@@ -1,6 +1,6 @@
 """property -> rule sets (DESIGN §4)"""
 from engine import ok, bad, assumed, floor
-import r_lock, r_panic, r_errd, r_order, r_misc
+import r_lock, r_panic, r_errd, r_order, r_misc, r_nowrap
 
 PROPS = {}
 
@@ -94,3 +94,39 @@ def c07(ctx):
     # ERRD: every child / handler result is ?-consumed or returned at all
     obs += r_errd.rule_errd(em.bodies, rule='ERRD')
     return obs, {'analysed': {'child_sites': n, 'evaluator_bodies': len(em.bodies)}}
+
+
+def exec_scope(ctx):
+    """bodies on the evaluation side: Reach(ExprAST::exec) plus every built-in handler and what it calls"""
+    em = eval_model(ctx)
+    prog = ctx.prog
+    ids = set(em.reach)
+    hs = prog.builtin_handlers()
+    ids |= prog.reach([h.id for h in hs])
+    return [prog.by_id[i] for i in sorted(ids)], hs
+
+
+FALLIBLE_CONV = __import__('re').compile(
+    r'(::checked_\w+$|::try_from$|::try_into$|::from_str$|::from_str_exact$|::from_scientific$|^core::str::<impl str>::parse$|FromPrimitive>::from_\w+$|ToPrimitive>::to_\w+$|::from_str_radix$)')
+
+def fallible_conv(c):
+    n = c.rdef or c.callee or ''
+    return bool(FALLIBLE_CONV.search(n)) or bool(FALLIBLE_CONV.search(c.callee or ''))
+
+
+@prop('C04',
+      'PANIC: inventory of every panic site (Assert terminators; calls into spec/may_panic.tsv; rust_decimal operator traits Add/Sub/Mul/Div/Rem(+Assign), Sum/Product) '
+      'in Reach(ExprAST::exec) and in every built-in handler closure and its callees; each site must be discharged by D-guard (dominating is_some/is_ok edge on the same place), '
+      'D-total (total constructor), D-lock (NO-POISON), D-range. NOWRAP: no primitive integer + - * / % or negation, no shift with a non-constant count, no narrowing / sign-changing / float->int `as` cast, '
+      'no wrapping_/overflowing_/saturating_/unchecked_ method — this makes the verdict identical for debug and release builds (thorough re-extracts with overflow-checks off, --release and debug-assertions on and requires identical verdicts). '
+      'ERRD: every crate Result and every checked_*/try_from/parse result in that scope is ?-propagated, returned, matched with a failing arm, or passed through a failure-preserving combinator.',
+      not_decided='nothing of the statement; rust_decimal\'s own totality (checked_* never panic) is trusted; stack exhaustion by deep trees is C01',
+      assumptions=COMMON_ASSUME + ['rust_decimal checked_add/sub/mul/div/rem return None instead of panicking'])
+def c04(ctx):
+    bodies, hs = exec_scope(ctx)
+    obs, sites = r_panic.evaluate(bodies)
+    obs += r_nowrap.rule_nowrap(bodies)
+    obs += r_errd.rule_errd(bodies, extra_callee_pred=fallible_conv)
+    obs.append(floor('PANIC', 'builtin-handlers', len(hs), 20, 'the documented built-in operators and functions are closures escaping into handler types'))
+    obs.append(floor('PANIC', 'exec-scope-bodies', len(bodies), 30, 'evaluator + handlers + accessors'))
+    return obs, {'analysed': {'scope_bodies': len(bodies), 'builtin_handlers': len(hs), 'panic_sites': len(sites)}}
